@@ -46,6 +46,18 @@ Theorem one_writer_strictly_increasing :
 Proof. exact one_writer_strictly_increasing_ok. Qed.
 Print Assumptions one_writer_strictly_increasing.
 
+(* read-your-writes for an uncontended writer: the version published with new_seqnum of its survey,
+   once k distinct shares of it are in a later map that holds nothing the survey had not seen, is
+   what that later read returns *)
+Theorem publish_then_read :
+  forall m_survey m_read v,
+    seq v = new_seqnum m_survey ->
+    In v (recoverable_versions m_read) ->
+    (forall w, In w (versions m_read) -> w <> v -> In w (versions m_survey)) ->
+    best_recoverable_version m_read = Some v.
+Proof. exact publish_then_read_ok. Qed.
+Print Assumptions publish_then_read.
+
 (* MODE_READ keeps querying while a newer unrecoverable version is known and servers remain *)
 Theorem mode_read_keeps_querying :
   forall u m, running u = true -> must_query u = false -> (outstanding u || extra u = true) ->
@@ -70,6 +82,11 @@ Definition ex_map : servermap :=
     {| srv := 3; shnum := 2; ver := {| seq := 5; vtag := 9; vk := 3 |} |};
     {| srv := 3; shnum := 0; ver := {| seq := 5; vtag := 9; vk := 3 |} |};
     {| srv := 4; shnum := 4; ver := {| seq := 7; vtag := 2; vk := 3 |} |} ].
+Example ex_publish_then_read :
+  let v8 := {| seq := 8; vtag := 1; vk := 1 |} in
+  new_seqnum ex_map = 8 /\ In v8 (recoverable_versions ({| srv := 9; shnum := 0; ver := v8 |} :: ex_map)) /\
+  best_recoverable_version ({| srv := 9; shnum := 0; ver := v8 |} :: ex_map) = Some v8.
+Proof. vm_compute. repeat split. left. reflexivity. Qed.
 Example ex_newer_unrecoverable :
   best_recoverable_version ex_map = Some {| seq := 5; vtag := 9; vk := 3 |} /\
   unrecoverable_newer_versions ex_map = [ {| seq := 7; vtag := 2; vk := 3 |} ] /\
